@@ -26,7 +26,11 @@ var upgVals = []string{"websocket", "WebSocket", "WEBSOCKET", "websocket, h2c", 
 	"web\u017focket", "websoc\u212aet", "h2c, web\u017focket", "WEB\u017fOC\u212aET"}
 var swpVals = []string{"grpc-websockets", "a, grpc-websockets", "grpc-websockets, b", "GRPC-Websockets", "grpc-websockets2", "xgrpc-websockets", "a,grpc-websockets,b", "graphql-ws", "grpc-websockets ;q=1", "grpc-web\u017fockets", "a, grpc-websoc\u212aets"}
 var ctVals = []string{"application/grpc-web", "application/grpc-web+proto", "Application/GRPC-Web+proto", "application/grpc-web-text", "application/grpc-web; charset=utf-8", "application/grpc-web+json ; a=b",
-	"application/grpc", "application/json", "text/plain; x=application/grpc-web", "APPLICATION/GRPC-WEB-TEXT+PROTO", "application/grpc-webby", "xapplication/grpc-web", "application /grpc-web"}
+	"application/grpc", "application/json", "text/plain; x=application/grpc-web", "APPLICATION/GRPC-WEB-TEXT+PROTO", "application/grpc-webby", "xapplication/grpc-web", "application /grpc-web",
+	// parameter sections that a MIME parser rejects: the media type in front of them is what decides
+	"application/grpc-web-text; base64", "application/grpc-web+proto;; charset=utf-8", "application/grpc-web+proto; charset=utf-8; charset=UTF-8", "application/grpc-web;",
+	"application/grpc-web ;", "application/grpc-web;=x", "application/grpc-web; a=\"unterminated", "application/grpc-web; a b", "application/grpc-web\t; q", "application/grpc-web+proto; charset",
+	"application/json; x=application/grpc-web;;", "application/json;; charset=utf-8", "application/grpc-web/extra", "application/grpc-web+proto+x; a=1; A=2"}
 
 func pickLines(r *vc.Rand, name string, pool []string, pPresent int) [][2]string {
 	var out [][2]string
